@@ -5,6 +5,7 @@ import (
 	"go/token"
 	"go/types"
 	"sort"
+	"strconv"
 	"strings"
 
 	"golang.org/x/tools/go/ssa"
@@ -43,7 +44,7 @@ func negSet(c *cx, id string) []*eng.Fn {
 			}
 		}
 	}
-	for _, n := range [][2]string{{"component", "Negotiator"}, {"", "negotiator"}} {
+	for _, n := range [][2]string{{"component", "Negotiator"}, {"websocket", "Negotiator"}, {"", "negotiator"}} {
 		if f := c.p.Func(n[0], n[1]); f != nil {
 			for _, l := range f.Lits {
 				roots = append(roots, s.FuncOf(l))
@@ -73,6 +74,7 @@ func runC04(p *eng.Prog, r *eng.Report, tier string) {
 		names = append(names, f.Short)
 	}
 	r.Note("NEG set (%d functions): %s", len(neg), strings.Join(names, ", "))
+	c04CtxThreaded(c, "C04.8", neg)
 	r.Floor("C04.1", "functions in the negotiation set", len(neg), 40)
 	errDiscipline(c, "C04.1", neg, acceptC04, true)
 	c01Session(c) // C04.3 / C01.7 / C01.14 / C01.12
@@ -327,4 +329,105 @@ func c04NoPanic(c *cx, neg []*eng.Fn) {
 			c.r.Check(id, f, "explicit panic", "no explicit panic in the negotiation functions (accept table: "+why+")", cl.Pos(), ok, "explicit panic reachable during negotiation")
 		}
 	}
+}
+
+// c04CtxThreaded: within the negotiation functions, every call that takes a
+// context is given the function's own context parameter or a context derived
+// from it (context.With*(ctx, ...)): a fresh Background/TODO context or a
+// context captured outside the call cuts the callee off from cancellation.
+func c04CtxThreaded(c *cx, id string, neg []*eng.Fn) {
+	n := 0
+	for _, f := range neg {
+		sig := f.Sig()
+		if sig == nil {
+			continue
+		}
+		own := ""
+		for i := 0; i < sig.Params().Len(); i++ {
+			if eng.TypeStr(sig.Params().At(i).Type()) == "context.Context" {
+				own = "p" + strconv.Itoa(i)
+			}
+		}
+		if own == "" {
+			continue
+		}
+		g := f.Graph()
+		for _, cl := range f.AllCalls() {
+			var ft *types.Signature
+			if t := f.Info().TypeOf(cl.Fun); t != nil {
+				ft, _ = t.Underlying().(*types.Signature)
+			}
+			if ft == nil || ft.Params().Len() == 0 || len(cl.Args) == 0 || eng.TypeStr(ft.Params().At(0).Type()) != "context.Context" {
+				continue
+			}
+			if strings.HasPrefix(f.CalleeID(cl), "context.") {
+				continue // the derivation itself; its result is judged where it is used
+			}
+			pt, ok := g.Where(cl)
+			if !ok {
+				continue
+			}
+			n++
+			if f.CalleeID(cl) == "xmpp.newTeeConn" {
+				// accepted: the tee connection's context only switches the tee
+				// effect off (it is cancelled by the next negotiator call); it is
+				// deliberately not part of the operation's context chain
+				continue
+			}
+			a := f.Norm(cl.Args[0], &pt)
+			derived := ctxDerived(f, cl.Args[0], pt, 0)
+			c.r.Check(id, f, "context passed to "+f.CalleeID(cl), "P: callees get the caller's context or one derived from it", cl.Pos(), derived, "context argument is "+a)
+		}
+	}
+	c.r.Floor(id, "context-taking calls in the negotiation functions", n, 10)
+}
+
+// ctxDerived reports whether e, evaluated at pt, is one of f's own context
+// parameters or is derived from one through context.With* calls, following the
+// reaching definitions of locals.
+func ctxDerived(f *eng.Fn, e ast.Expr, pt eng.Point, depth int) bool {
+	if depth > 6 {
+		return false
+	}
+	g := f.Graph()
+	switch x := ast.Unparen(e).(type) {
+	case *ast.Ident:
+		v, ok := f.Info().ObjectOf(x).(*types.Var)
+		if !ok {
+			return false
+		}
+		defs := g.ReachingDefs(v, pt)
+		if len(defs) == 0 {
+			return false
+		}
+		for _, d := range defs {
+			switch d.Kind {
+			case eng.DefParam:
+				// a parameter of this function (not a variable captured from outside)
+				isParam := false
+				if sig := f.Sig(); sig != nil {
+					for i := 0; i < sig.Params().Len(); i++ {
+						if sig.Params().At(i) == v {
+							isParam = true
+						}
+					}
+				}
+				if !isParam {
+					return false
+				}
+			case eng.DefPlain, eng.DefTuple:
+				if d.RHS == nil || (d.Kind == eng.DefTuple && d.Index != 0) || !ctxDerived(f, d.RHS, d.At, depth+1) {
+					return false
+				}
+			default:
+				return false
+			}
+		}
+		return true
+	case *ast.CallExpr:
+		if strings.HasPrefix(f.CalleeID(x), "context.With") && len(x.Args) > 0 {
+			return ctxDerived(f, x.Args[0], pt, depth+1)
+		}
+	}
+	return false
 }
